@@ -73,3 +73,21 @@ func TestPaths(t *testing.T) {
 	}
 	t.Logf("%d attribute paths, e.g. %v", len(p), p[:10])
 }
+
+func TestSharedFilesLoad(t *testing.T) {
+	work := t.TempDir()
+	os.Setenv("HOME", work)
+	ok := 0
+	for i := 0; i < 40; i++ {
+		m := Draw(rand.New(rand.NewSource(int64(i)+1)), Config{Density: 0.3, SharedFiles: true, Layout: i%2 == 0})
+		_, res := ld.Run(work, m.Case(ld.Opts{}))
+		if res.Err != nil {
+			t.Logf("%d: %v", i, res.Err)
+			continue
+		}
+		ok++
+	}
+	if ok < 38 {
+		t.Errorf("only %d/40 shared-file models load", ok)
+	}
+}
